@@ -7,14 +7,14 @@ from collections import Counter
 from numba_scfg.core.datastructures.basic_block import (
     PythonASTBlock, RegionBlock, SyntheticAssignment, SyntheticBranch,
 )
-from vf.oracles.hier import flatten, regions, header_leaf, top_head
+from vf.oracles.hier import flatten, regions, header_leaf, top_head, fwd_targets
 from vf.oracles import dot
 
 
 def _head_of(g):
     heads = set(g.graph)
     for b in g.graph.values():
-        for t in b.jump_targets:
+        for t in fwd_targets(b):
             heads.discard(t)
     return sorted(heads)
 
@@ -77,7 +77,7 @@ def check_iter(scfg):
             return
         seen = {v[0]}
         for x in v[1:]:
-            if not any(x in g.graph[p].jump_targets for p in seen):
+            if not any(x in fwd_targets(g.graph[p]) for p in seen):
                 errs.append(("view-before-predecessors", kind, label, x))
             seen.add(x)
         # values()/items() of the Mapping view agree with the graph
@@ -110,7 +110,7 @@ def expected_drawing(scfg):
 
     edges = []
     for n, b in flat.items():
-        for t in b.jump_targets:
+        for t in fwd_targets(b):
             edges.append((n, res(t), False))
         for t in b.backedges:
             edges.append((n, res(t), True))
